@@ -17,6 +17,8 @@ CLAIMED = {
          "Every state write in every enter() is dominated by the membership test of the entity whose resource is used; the built-in dispatchers' filters and per-fleet fold are checked over all fleet counts; every grant_access_* call site is classified by receiver role. One construct (Dispatcher._is_valid_for_dispatch uses the vehicle as receiver) is a listed known finding.", "4/C10"),
  "C17": ("typestate pairing for the assignment record + enter-call discipline + guard dominance in the dispatcher filter",
          "Assignment record acquired in enter() is released on every success path of exit() (except request gone), every enter() call is preceded by the previous activity's exit(), the record has a closed writer/caller set, the dispatcher's request filter implies 'no vehicle dispatched'. Inductive over all redirect/interrupt/strand histories.", "4/C17"),
+ "C09": ("typestate transition shape + adopt-on-success / fold-threading dataflow + push/pop end consistency + phase threading",
+         "transition_previous_to_next returns enter(exit(sim)) or no state on every path; apply_instructions adopts only tested-successful states, threads its accumulator through every iteration without early exit and records 'applied' only when adopting; generator order, driver-last push, head/head stack ends and the phase threading of StepSimulation.update are decided on the expanded data flow. Covers every instruction/rejection combination because it is a statement about all paths.", "4/C09"),
 }
 CLAIMED.update(json.load(open(os.path.join(V, "tools", "claimed_extra.json"))) if os.path.exists(os.path.join(V, "tools", "claimed_extra.json")) else {})
 
